@@ -117,7 +117,7 @@ def run(ctx, mod, CtxClass):
         finally:
             shutil.rmtree(sd, ignore_errors=True)
     # ---- (4) behaviour-preserving refactorings written by independent sub-agents (benign/b1): the check must stay silent ---------
-    ctx.rule('REFACTORING', 'each kept behaviour-preserving refactoring of the code this property depends on (benign/b1, benign/b2 and benign/b3 /%s-*, written by independent sub-agents) leaves this check silent '
+    ctx.rule('REFACTORING', 'each kept behaviour-preserving refactoring of the code this property depends on (benign/b1, benign/b2, benign/b3 /%s-*, written by independent sub-agents, and benign/own: hand-written twins of seeded faults) leaves this check silent '
              'when applied to a scratch copy; the refactorings known to raise a false alarm (DESIGN.md 10.6, benign/*/KNOWN_NOT_SILENT.txt) are not run' % pid, floor=None)
     skip = set()
     for kp in glob.glob(os.path.join(VERIF, 'benign', '*', 'KNOWN_NOT_SILENT.txt')):
